@@ -197,7 +197,8 @@ CLAIMS = {
          "degree < k is a spline with ALL derivatives (C15_polynomials_are_splines); a system with no zero pivot has "
          "exactly one solution (C15_solver_complete); therefore a spline solved on data from a polynomial of degree < "
          "k (values at interior sites, prescribed derivatives at end sites) equals it with all derivatives everywhere "
-         "in the domain, knots and both end points included (C15_polynomial_reproduction). DERIVATIVES / DUAL "
+         "in the domain, knots and both end points included (C15_polynomial_reproduction; least-squares branch with full "
+         "column rank: C15_polynomial_reproduction_lsq). DERIVATIVES / DUAL "
          "ABSCISSAE: the order-(m+1) evaluation is the one-sided derivative of the order-m evaluation "
          "(C15_spline_derivative, C15_spline_derivative_right_end); at a dual abscissa value = plain evaluation, "
          "sensitivities S'(x) dx and S'(x) 1/2 d2x + 1/2 S''(x) dx dx (C15_dual_abscissa, C15_dual2_abscissa); with "
@@ -206,8 +207,7 @@ CLAIMS = {
          "C15_data_value, C15_data_sensitivity2 (sensitivity to each name = spline solved on the data's sensitivities, "
          "i.e. the unit-data spline for one tag per datum).",
     design_ref="DESIGN.md §3 C15",
-    note=_corr + "Schoenberg-Whitney non-singularity is a hypothesis (no zero pivot); the tall least-squares branch is not "
-         "covered by the reproduction theorem (correspondence + oracle); f64 rounding not modelled.",
+    note=_corr + "Schoenberg-Whitney non-singularity is a hypothesis (no zero pivot); f64 rounding not modelled.",
     technique="Lean 4 + Mathlib proof (C13 soundness/completeness composed with the collocation matrix, Marsden identity via polynomial coefficients, one-sided derivatives, module homomorphisms) + differential correspondence + model-free oracle"),
  "C16": dict(
     text="Lean 4 theorems: the bincode wire format of Dual, Dual2, Number, PPSpline (3 types), FXRates (quotes + currencies "
